@@ -10,7 +10,7 @@ ASSUMPTIONS = ["the 2^24 (register, byte) update space is covered in the proof b
                "lemma, and on the Python side by sampling (thorough: 2 000 000 pairs)"]
 
 
-def impl_fn(op, arg):
+def impl(op, arg):
     from dlms_cosem import crc
     c = crc.CRCCCITT()
     if op == "crc_table_entry":
@@ -61,17 +61,17 @@ def check_msg(ctx, msg, spec_fcs, spec_res):
 def run(ctx):
     r = lib.rng("C12")
     # --- correspondence
-    ctx.corr([("crc_table_entry", i) for i in range(256)], impl_fn, "table")
-    ctx.corr([("crc_reverse_byte", i) for i in range(256)], impl_fn, "reverse")
+    ctx.corr([("crc_table_entry", i) for i in range(256)], impl, "table")
+    ctx.corr([("crc_reverse_byte", i) for i in range(256)], impl, "reverse")
     ctx.exhaustive += ["256 table entries", "256 byte reversals"]
     regs = [0, 1, 0x00FF, 0x0100, 0x7FFF, 0x8000, 0x8408, 0x1021, 0xFF00, 0xFFFE, 0xFFFF]
     pairs = [(a, bytes([b])) for a in regs for b in (0, 1, 0x7E, 0x80, 0xFF)]
     n = ctx.scale(30000, 2000000)
     pairs += [(r.getrandbits(16), bytes([r.getrandbits(8)])) for _ in range(n)]
     for k in range(0, len(pairs), 200000):
-        ctx.corr([("crc_calculate_from", list(p)) for p in pairs[k:k + 200000]], impl_fn, "bytestep")
+        ctx.corr([("crc_calculate_from", list(p)) for p in pairs[k:k + 200000]], impl, "bytestep")
     msgs = messages(ctx)
-    ctx.corr([("crc_calculate_for", [m, lf]) for m in msgs for lf in (False, True)], impl_fn, "calculate_for")
+    ctx.corr([("crc_calculate_for", [m, lf]) for m in msgs for lf in (False, True)], impl, "calculate_for")
     # --- search against the reference
     spec = lib.run_model([("spec_x25_fcs", m) for m in msgs])
     from dlms_cosem import crc
@@ -86,8 +86,6 @@ def run(ctx):
 
 
 def replay(ctx, rp):
-    if rp.get("kind") == "obligation":
-        return _replay_obligation(ctx)
     msg = bytes.fromhex(rp["case"]["msg"])
     spec = lib.run_model([("spec_x25_fcs", msg)])[0]
     from dlms_cosem import crc
@@ -98,8 +96,3 @@ def replay(ctx, rp):
     return bool(ctx.failures)
 
 
-def _replay_obligation(ctx):
-    ok_tr, _ = lib.translator()
-    ok_b, _ = lib.coq_build([f"properties/{ctx.pid}.vo"])
-    run(ctx)
-    return (not ok_tr) or (not ok_b) or bool(ctx.disagreements) or bool(ctx.failures)
